@@ -1843,3 +1843,68 @@ for _p in ("C17", "C04"):
     PROPS[_p]["fams"] = PROPS[_p]["fams"] + [("fam_builder_scripts", 120, 3000)]
 for _p in ("C19", "C02"):
     PROPS[_p]["fams"] = PROPS[_p]["fams"] + [("fam_reject_gap", 40, 1000), ("fam_extreme_ts", 40, 1000)]
+
+
+# ---- VP9: conforming key frames encoded from the syntax of Spec/Vp9Syntax.v ----
+def fam_vp9_syntax(rng, n, prefix):
+    lines, metas = [], []
+    for i in range(n):
+        pr = rng.below(4)
+        cs = rng.choice([0, 1, 2, 5, 7, 7])
+        rs = rng.chance(1, 4)
+        w, h = rng.choice([639, 1919, 0, 65535, 319]), rng.choice([479, 1079, 0, 65535, 239])
+        toks = [pr, rng.below(2), rng.below(2), rng.below(2), cs, rng.below(2), rng.below(2), rng.below(2), w, h]
+        lines.append("vp9 v%d %s %s %s %s" % (i, " ".join("%x" % x for x in toks),
+                                              ("%x" % rng.below(65536)) if rs else "~", ("%x" % rng.below(65536)) if rs else "~",
+                                              hx(rng.bytes(rng.range(1, 12)))))
+        metas.append(dict(profile=pr, cs=cs))
+    p = subprocess.run([DRIVER, "vp9enc"], input=("\n".join(lines) + "\n").encode(), stdout=subprocess.PIPE,
+                       stderr=subprocess.PIPE, timeout=600)
+    out = []
+    for l in p.stdout.decode().split("\n"):
+        w = l.split(" ")
+        if w[0] != "vp9" or w[2] != "1":
+            continue
+        i = int(w[1][1:])
+        c = Case("%s%d" % (prefix, i), "mux")
+        c.b("video", "vp9", "280", "1e0").b("fast", rng.below(2))
+        c.o("wv", fb(0.0), w[3], 1)
+        c.o("fin", 0)
+        c.meta = dict(vp9=dict(metas[i], bit_depth=int(w[4], 16)))
+        out.append(c)
+        f = fn_case("%s%d_fn" % (prefix, i), "extract_vp9_config", w[3])
+        f.meta = dict(vp9=dict(metas[i], bit_depth=int(w[4], 16)))
+        out.append(f)
+    return out
+
+
+F.fam_vp9_syntax = fam_vp9_syntax
+_extra_C07_av1 = extra_C07
+
+
+def extra_C07(eng, cases):
+    _extra_C07_av1(eng, cases)
+    n = 0
+    for c in cases:
+        exp = c.meta.get("vp9") if isinstance(c.meta, dict) else None
+        if not exp and "vp9_real" in c.id:
+            exp = dict(profile=0, cs=1, bit_depth=8)      # the committed witness of KF-C07-3
+        if not exp:
+            continue
+        n += 1
+        b = eng.iblocks.get(c.id, [])
+        if c.kind == "fn":
+            if not b or b[0].split(" ")[1:2] == ["none"]:
+                eng.fail(c, "a conforming VP9 key frame (header encoded from the VP9 syntax) is rejected by extract_vp9_config",
+                         dict(key="C07", vp9=True))
+            continue
+        if first_ok_fin(c, b) is None or not any(l == "r ok" for l in b[:3]):
+            eng.fail(c, "a conforming VP9 key frame (header encoded from the VP9 syntax) is not accepted as first frame",
+                     dict(key="C07", vp9=True))
+    eng.notes.append("conforming VP9 key frames tried: %d" % n)
+
+
+KNOWN_CLASSES["c07_vp9_conforming_keyframe_rejected"] = lambda eng, fl: bool((fl.get("detail") or {}).get("vp9"))
+PROPS["C07"]["extra"] = extra_C07
+PROPS["C07"]["fams"] = PROPS["C07"]["fams"] + [("fam_vp9_syntax", 40, 1500)]
+PROPS["C12"]["fams"] = PROPS["C12"]["fams"] + [("fam_vp9_syntax", 30, 1000)]
